@@ -323,8 +323,11 @@ def _shrink_candidates(plan):
             break
 
 
-def shrink(prop, plan, sig, max_runs=120):
-    """Greedy delta debugging: keep a candidate iff the same violation signature persists."""
+def shrink(prop, plan, sig, max_runs=120, max_wall=None):
+    """Greedy delta debugging: keep a candidate iff the same violation signature persists.
+    Bounded in runs and in wall time (a violation that is a hang costs one watchdog period per candidate)."""
+    max_wall = max_wall if max_wall is not None else float(os.environ.get("VERIF_SHRINK_WALL", "150"))
+    t_start = time.time()
     runs = 0
     improved = True
     cur = plan
@@ -336,7 +339,8 @@ def shrink(prop, plan, sig, max_runs=120):
         if hooks:
             cands = list(hooks(cur)) + cands
         for name, cand in cands:
-            if runs >= max_runs:
+            if runs >= max_runs or time.time() - t_start > max_wall:
+                improved = False
                 break
             runs += 1
             try:
